@@ -189,17 +189,20 @@ theorem rejected_sends_nothing (E : Env) (m : String) (pos : List Val) (kw : Dic
 
 /-- **Restore.**  After `with c(**ctx): body` and after `with mc.application(..): body`
 the stack is exactly the stack before - for every body (any nesting, updates,
-calls), whether the body ends normally or raises at any depth, whether the
-application call is rejected, and whether the stop signal fails. -/
-theorem restore (E : Env) (s : List Dict) (id : Nat) (ctx : Dict) (body : Prog) :
-    (exec E s (.block id ctx body .done)).stack = s := by
+calls, failing method bodies) and every sequence `cb` of `before_close` callbacks
+(which may themselves call methods, open blocks, update the context or raise),
+whether the body ends normally or raises at any depth, whether the application
+call is rejected, and whether the stop signal fails. -/
+theorem restore (E : Env) (s : List Dict) (id : Nat) (ctx : Dict) (body cb : Prog) :
+    (exec E s (.block id ctx body cb .done)).stack = s := by
   obtain ⟨c', hc⟩ := exec_stack E body (dictOf ctx) s
-  simp only [exec, hc, List.tail_cons]
+  obtain ⟨c'', hc2⟩ := exec_stack E cb c' s
+  simp only [exec, hc, hc2, List.tail_cons]
   split <;> rfl
 
 theorem restore_application (E : Env) (s : List Dict) (id : Nat) (pos : List Val) (kw : Dict)
-    (stopFails : Bool) (body : Prog) :
-    (exec E s (.app id pos kw stopFails body .done)).stack = s := by
+    (stopFails : Bool) (body cb : Prog) :
+    (exec E s (.app id pos kw stopFails body cb .done)).stack = s := by
   simp only [exec]
   split
   · rfl
@@ -207,8 +210,13 @@ theorem restore_application (E : Env) (s : List Dict) (id : Nat) (pos : List Val
     · rfl
     · rename_i bound _
       obtain ⟨c', hc⟩ := exec_stack E body [("app_id", (dget bound "app_id").getD Val.none)] s
-      simp only [hc, List.tail_cons]
-      split <;> rfl
+      obtain ⟨c'', hc2⟩ := exec_stack E cb c' s
+      simp only [hc]
+      split
+      · simp only [List.tail_cons]
+        split <;> rfl
+      · simp only [hc2, List.tail_cons]
+        split <;> rfl
 
 /-- for whole programs: nothing below the newest context ever changes, and the
 newest context itself changes only by an `update_current_context` at its own level -/
@@ -218,8 +226,8 @@ theorem restore_inner (E : Env) (p : Prog) (top : Dict) (rest : List Dict) :
   ⟨exec_stack E p top rest, exec_stack_same E p top rest⟩
 
 /-- and the arguments in force (`get_context_arguments()`) are therefore the same too -/
-theorem restore_arguments (E : Env) (s : List Dict) (id : Nat) (ctx : Dict) (body : Prog) :
-    merged (exec E s (.block id ctx body .done)).stack = merged s := by
+theorem restore_arguments (E : Env) (s : List Dict) (id : Nat) (ctx : Dict) (body cb : Prog) :
+    merged (exec E s (.block id ctx body cb .done)).stack = merged s := by
   rw [restore]
 
 /-! ## leaving an application block stops that application -/
@@ -270,34 +278,135 @@ theorem stop_targets_application (E : Env) (hs : E.sigs = sigs) (hc : E.cls = "M
       [⟨.scp, .int 255, .int 255, .int 0, some a⟩] := by
     have hbd : bodyOf "MachineController" "send_signal" =
         [.scp (.lit (.int 255)) (.lit (.int 255)) (.lit (.int 0)) (some (.ref "app_id"))] := by rfl
-    simp [wire, wireFuel, hbd, evalEx, dget]
+    simp [wire, wireFuel, hbd, evalEx, lookupV, dget]
   simp only [callRes, hs, hc, hf, List.length_singleton, hr, hb, hw]
   simp
 
 /-- **Application blocks.**  Leaving `with mc.application(..): body` - normally, by
-exception, at any nesting - emits, last inside the block and before the context
-is removed, the stop signal resolved to the block's application id `a`
-(provided the body does not itself re-assign `app_id` of the block's own context
-with `update_current_context`). -/
+exception, at any nesting - emits, inside the block, before any callback the user
+registered on the context runs and before the context is removed, the stop signal
+resolved to the block's application id `a` (provided the body does not itself
+re-assign `app_id` of the block's own context with `update_current_context`);
+whatever the callbacks `cb` do afterwards, the arguments in force at the exit are
+those before the block. -/
 theorem application_stops (E : Env) (hs : E.sigs = sigs) (hc : E.cls = "MachineController")
-    (s : List Dict) (id : Nat) (pos : List Val) (kw : Dict) (stopFails : Bool) (body next : Prog)
+    (s : List Dict) (id : Nat) (pos : List Val) (kw : Dict) (stopFails : Bool) (body cb next : Prog)
     (bound : Dict) (a : Val)
     (hacc : (resolve mc_application pos.length kw s >>= bind mc_application pos) = .ok bound)
     (ha : dget bound "app_id" = some a) (hreq : a ≠ Val.required) (hbody : noTopUpdate body = true) :
     ∃ pre post,
-      (exec E s (.app id pos kw stopFails body next)).evs =
+      (exec E s (.app id pos kw stopFails body cb next)).evs =
         pre ++ Ev.exit id (some (.sent [("app_id", a)] [⟨.scp, .int 255, .int 255, .int 0, some a⟩]))
           (merged s) :: post := by
   have hf : findSig sigs "MachineController" "application" = some mc_application := by decide
   have hst := exec_stack_same E body [("app_id", a)] s hbody
   have hstop := stop_targets_application E hs hc a hreq s
+  obtain ⟨c'', hc2⟩ := exec_stack E cb [("app_id", a)] s
   simp only [exec, hs, hc, hf, hacc, ha, Option.getD_some]
   rw [← hs, ← hc] at *
-  simp only [hst, hstop, List.tail_cons]
-  split
-  · exact ⟨Ev.enter id (merged ([("app_id", a)] :: s)) :: (exec E ([("app_id", a)] :: s) body).evs, [], by simp⟩
-  · exact ⟨Ev.enter id (merged ([("app_id", a)] :: s)) :: (exec E ([("app_id", a)] :: s) body).evs,
-      (exec E s next).evs, by simp⟩
+  simp only [hst, hstop, hc2, CallRes.isRejected, Bool.false_or]
+  cases stopFails
+  · simp only [Bool.false_eq_true, if_false, hc2, List.tail_cons]
+    split
+    · exact ⟨Ev.enter id (merged ([("app_id", a)] :: s)) :: ((exec E ([("app_id", a)] :: s) body).evs ++
+        (exec E ([("app_id", a)] :: s) cb).evs), [], by simp⟩
+    · exact ⟨Ev.enter id (merged ([("app_id", a)] :: s)) :: ((exec E ([("app_id", a)] :: s) body).evs ++
+        (exec E ([("app_id", a)] :: s) cb).evs), (exec E s next).evs, by simp⟩
+  · simp only [if_true, List.tail_cons, Bool.or_true]
+    exact ⟨Ev.enter id (merged ([("app_id", a)] :: s)) :: (exec E ([("app_id", a)] :: s) body).evs, [], by simp⟩
+
+/-- the events of an application block, exactly: enter; the body; the stop signal for the block's
+application, resolved in the block's context BEFORE any user callback runs; the user's callbacks `cb`
+(skipped if the stop signal raised); exit with the arguments in force before the block; then the rest
+of the program unless the body, the stop signal or a callback raised -/
+theorem application_events (E : Env) (hs : E.sigs = sigs) (hc : E.cls = "MachineController")
+    (s : List Dict) (id : Nat) (pos : List Val) (kw : Dict) (stopFails : Bool) (body cb next : Prog)
+    (bound : Dict) (a : Val)
+    (hacc : (resolve mc_application pos.length kw s >>= bind mc_application pos) = .ok bound)
+    (ha : dget bound "app_id" = some a) (hreq : a ≠ Val.required) (hbody : noTopUpdate body = true) :
+    let B := exec E ([("app_id", a)] :: s) body
+    let C : Res := if stopFails then ⟨[("app_id", a)] :: s, [], true⟩ else exec E ([("app_id", a)] :: s) cb
+    (exec E s (.app id pos kw stopFails body cb next)).evs =
+      Ev.enter id (merged ([("app_id", a)] :: s)) ::
+        (B.evs ++ C.evs ++
+          [Ev.exit id (some (.sent [("app_id", a)] [⟨.scp, .int 255, .int 255, .int 0, some a⟩])) (merged s)]) ++
+      (if B.raised || C.raised then [] else (exec E s next).evs) := by
+  have hf : findSig sigs "MachineController" "application" = some mc_application := by decide
+  have hst := exec_stack_same E body [("app_id", a)] s hbody
+  have hstop := stop_targets_application E hs hc a hreq s
+  obtain ⟨c'', hc2⟩ := exec_stack E cb [("app_id", a)] s
+  simp only [exec, hs, hc, hf, hacc, ha, Option.getD_some]
+  rw [← hs, ← hc] at *
+  simp only [hst, hstop, hc2, CallRes.isRejected, Bool.false_or]
+  cases stopFails
+  · simp only [Bool.false_eq_true, if_false, hc2, List.tail_cons]
+    split <;> simp
+  · simp
+
+private theorem nested_shape (e1 e2 x1 x2 : Ev) (B C X Y Z : List Ev) :
+    e1 :: ((e2 :: (B ++ C ++ [x2]) ++ X) ++ Y ++ [x1]) ++ Z =
+      (e1 :: e2 :: (B ++ C)) ++ x2 :: ((X ++ Y) ++ x1 :: Z) := by simp
+
+/-- **Nested application blocks.**  `with mc.application(a): with mc.application(b): body` (the inner
+block followed by any further statements `next2` of the outer body, any callbacks, any exit path of
+`body`): the inner block's exit carries the stop signal for `b` and restores the outer block's
+arguments (application `a` in force again); later, the outer block's exit carries the stop signal
+for `a` and restores the arguments before both. -/
+theorem nested_applications_stop_inner_first (E : Env) (hs : E.sigs = sigs) (hc : E.cls = "MachineController")
+    (s : List Dict) (id1 id2 : Nat) (pos1 pos2 : List Val) (kw1 kw2 : Dict) (sf1 sf2 : Bool)
+    (body cb1 cb2 next1 next2 : Prog) (bound1 bound2 : Dict) (a b : Val)
+    (hacc1 : (resolve mc_application pos1.length kw1 s >>= bind mc_application pos1) = .ok bound1)
+    (ha : dget bound1 "app_id" = some a) (hreqa : a ≠ Val.required)
+    (hacc2 : (resolve mc_application pos2.length kw2 ([("app_id", a)] :: s) >>= bind mc_application pos2) = .ok bound2)
+    (hb : dget bound2 "app_id" = some b) (hreqb : b ≠ Val.required)
+    (hbody : noTopUpdate body = true) (hnext2 : noTopUpdate next2 = true) :
+    ∃ pre mid post,
+      (exec E s (.app id1 pos1 kw1 sf1 (.app id2 pos2 kw2 sf2 body cb2 next2) cb1 next1)).evs =
+        pre ++ Ev.exit id2 (some (.sent [("app_id", b)] [⟨.scp, .int 255, .int 255, .int 0, some b⟩]))
+                (merged ([("app_id", a)] :: s)) ::
+        (mid ++ Ev.exit id1 (some (.sent [("app_id", a)] [⟨.scp, .int 255, .int 255, .int 0, some a⟩]))
+                (merged s) :: post) := by
+  have houter := application_events E hs hc s id1 pos1 kw1 sf1 (.app id2 pos2 kw2 sf2 body cb2 next2) cb1 next1
+    bound1 a hacc1 ha hreqa (by simpa [noTopUpdate] using hnext2)
+  have hinner := application_events E hs hc ([("app_id", a)] :: s) id2 pos2 kw2 sf2 body cb2 next2
+    bound2 b hacc2 hb hreqb hbody
+  simp only at houter hinner
+  rw [houter, hinner]
+  exact ⟨_, _, _, nested_shape _ _ _ _ _ _ _ _ _⟩
+
+/-- **Callbacks.**  The events of a plain block with `before_close` callbacks `cb`: the callbacks run
+after the body on every exit path, inside the block's context (so a decorated method called from a
+callback resolves its arguments against the context that is being closed), and an exception
+thrown by a callback propagates - after the context has been removed all the same. -/
+theorem block_events (E : Env) (s : List Dict) (id : Nat) (ctx : Dict) (body cb next : Prog) :
+    let B := exec E (dictOf ctx :: s) body
+    let C := exec E B.stack cb
+    (exec E s (.block id ctx body cb next)).evs =
+      Ev.enter id (merged (dictOf ctx :: s)) :: (B.evs ++ C.evs ++ [Ev.exit id none (merged s)]) ++
+        (if B.raised || C.raised then [] else (exec E s next).evs) ∧
+    ((B.raised || C.raised) = true →
+      (exec E s (.block id ctx body cb next)).raised = true ∧ (exec E s (.block id ctx body cb next)).stack = s) := by
+  obtain ⟨c', hc⟩ := exec_stack E body (dictOf ctx) s
+  obtain ⟨c'', hc2⟩ := exec_stack E cb c' s
+  simp only [exec, hc, hc2, List.tail_cons]
+  constructor
+  · split <;> simp
+  · intro h
+    simp [h]
+
+/-- a method body that raises after resolution (SCP error, failed allocation, ...) inside a block
+leaves, like any exception: what it has sent stays in the event list, the rest of the body is
+skipped and the block restores the arguments -/
+theorem failing_call_unwinds (E : Env) (s : List Dict) (id cid : Nat) (ctx : Dict) (m : String)
+    (pos : List Val) (kw : Dict) (rest cb : Prog) :
+    let r := exec E s (.block id ctx (.call cid m pos kw false true rest) cb .done)
+    r.stack = s ∧ r.raised = true ∧
+    ∃ post, r.evs = Ev.enter id (merged (dictOf ctx :: s)) ::
+      Ev.call cid (callRes E m pos kw (dictOf ctx :: s)) :: post := by
+  obtain ⟨c'', hc2⟩ := exec_stack E cb (dictOf ctx) s
+  refine ⟨restore E s id ctx _ cb, ?_, ?_⟩
+  · simp [exec]
+  · simp [exec]
 
 /-! ## connection choice -/
 
@@ -358,7 +467,7 @@ example : (resolve mc_application 1 [] [[("app_id", .int 66)]] >>= bind mc_appli
 /-- a block left by exception inside a block: the stack is the one before -/
 example :
     (exec ⟨sigs, "MachineController", []⟩ [[("app_id", .int 66)]]
-      (.block 1 [("x", .int 1)] (.update [("y", .int 5)] (.block 2 [("x", .int 2)] .raise .done)) .done)).stack =
+      (.block 1 [("x", .int 1)] (.update [("y", .int 5)] (.block 2 [("x", .int 2)] .raise .done .done)) .raise .done)).stack =
     [[("app_id", .int 66)]] := by rfl
 
 end Rig.C18
